@@ -726,11 +726,67 @@ def parse_sequences(rep, n):
                 {'probe': probe, 'history': hist, 'one_parser': one_parser})
 
 
+def type_sequences(rep):
+    """Sorts asked for one after the other in one environment (the type
+    manager caches composite sorts): the second sort is the one asked for,
+    whatever look-alike was built before it."""
+    from pysmt.environment import Environment, push_env, pop_env
+    AII, AIR, ARI = B.ARR(B.INT, B.INT), B.ARR(B.INT, B.REAL), \
+        B.ARR(B.REAL, B.INT)
+    US, UT = ('U', 'SortS'), ('U', 'SortT')
+    sorts = [AII, AIR, ARI, B.ARR(AII, B.INT), B.ARR(AIR, B.INT),
+             B.ARR(ARI, B.INT), B.ARR(B.INT, AII), B.ARR(B.INT, AIR),
+             B.ARR(B.BV(4), B.BV(8)), B.ARR(B.BV(8), B.BV(4)),
+             B.ARR(B.BV(4), B.BV(4)), B.ARR(B.ARR(B.BV(4), B.INT), B.INT),
+             B.ARR(B.ARR(B.BV(8), B.INT), B.INT), B.ARR(US, B.INT),
+             B.ARR(UT, B.INT), B.ARR(B.ARR(US, B.INT), B.BOOL),
+             B.ARR(B.ARR(UT, B.INT), B.BOOL),
+             B.FUN(B.INT, (B.INT, B.REAL)), B.FUN(B.INT, (B.REAL, B.INT)),
+             B.FUN(B.INT, (AII,)), B.FUN(B.INT, (AIR,)),
+             B.FUN(AII, (B.INT,)), B.FUN(AIR, (B.INT,)),
+             ('U', 'Pr', (B.INT, B.REAL)), ('U', 'Pr', (B.REAL, B.INT)),
+             ('U', 'Pr', (AII, B.INT)), ('U', 'Pr', (AIR, B.INT)),
+             B.BV(4), B.BV(8)]
+    k = 0
+    for i, t1 in enumerate(sorts):
+        for j, t2 in enumerate(sorts):
+            k += 1
+            if k % rep.nshards != rep.shard:
+                continue
+            env = Environment()
+            push_env(env)
+            try:
+                p1 = B.to_pytype(t1, env)
+                p2 = B.to_pytype(t2, env)
+                mgr = env.formula_manager
+                s2 = mgr.Symbol('ts_b', p2)
+                got = B.from_pytype(p2)
+                got_sym = B.from_pytype(s2.symbol_type())
+            except Exception as e:
+                rep.violation('%s/sort-sequence/raises' % PROP,
+                              'asking for sort %r after %r raised %r' % (
+                                  t2, t1, e), {'t1': repr(t1),
+                                               't2': repr(t2)})
+                continue
+            finally:
+                pop_env()
+            rep.count('sort_sequence_checks')
+            rep.case(key=('sortseq', i, j))
+            if got != t2 or got_sym != t2 or (p1 is p2) != (t1 == t2):
+                rep.violation(
+                    '%s/sort-sequence/%s-after-%s' % (PROP, t2[0], t1[0]),
+                    'asking for sort %r after %r gives %r (symbol: %r)' % (
+                        t2, t1, got, got_sym),
+                    {'t1': repr(t1), 't2': repr(t2)})
+
+
 def run(rep):
     M.NODE_MONITOR.install()
     ck = Checker(rep)
     if rep.shard == 0 and (not rep.only or rep.only == 'constants'):
         constant_sequences(rep)
+    if not rep.only or rep.only == 'sorts':
+        type_sequences(rep)
     rep.share(0.1)
     if not rep.only or rep.only == 'parse':
         parse_sequences(rep, 40 if rep.tier == 'quick' else 4000)
